@@ -35,6 +35,18 @@ CHECKS = {
   level="Generated struct shapes x setting placements x values; per-field value comparison with an independent reference and accept/reject comparison for misuse cases. Exploration.",
   note="Trusts the rule model for source selection precedence; method-level inheritable flags are compared only inside the method's own body.",
   design="5/C05"),
+ "C06": dict(
+  engine="E-run",
+  technique="property-based testing: rapid programs with custom functions that mark all their inputs, executed on rapid values; differential against the reference plan calling the same functions",
+  level="Generated programs x values; equality with the reference holds iff every custom function / declared method was chosen at every depth and received source and context arguments unchanged. Exploration.",
+  note="Trusts the rule model for the lookup order (extend, declared method, rules) and the mark functions' digest (collisions would hide, never invent, a violation).",
+  design="5/C06"),
+ "C07": dict(
+  engine="E-run + E-gen",
+  technique="property-based fault injection: every recorded fallible call fails in turn and in rapid-chosen sets; oracle on error identity (errors.Is) and on the reported location vs the reference path; generated negative programs must be rejected",
+  level="Generated programs x values x fault sets (single faults enumerated per value, multi faults sampled); checks propagation, nil error without faults, and location accuracy for both wrapping modes. Exploration / fault enumeration within each value.",
+  note="Location oracle for wrapErrors is the subsequence rule (independent of where goverter places sub-method boundaries).",
+  design="5/C07"),
 }
 
 def main():
